@@ -611,10 +611,16 @@ func VerifC17Query() {
 	n1 := 1 + verifChoice("n1", n1max)
 	n2 := verifChoice("n2", n2max+1)
 	for r, n := range []int{n1, n2} {
-		if n > 0 {
+		if n > 0 && (r == 0 || verifTier() == 1) {
 			s.tx[r] = verifChoice(verifName("transaction", r), 2) == 1
 		}
 		for i := 0; i < n; i++ {
+			if r == 1 && verifTier() == 0 {
+				// quick tier: the follow-up request is a plain INSERT (what matters is the state the
+				// first request left on the pooled connection); thorough: any class, Transaction on/off
+				s.kinds[r] = append(s.kinds[r], c17Insert)
+				continue
+			}
 			s.kinds[r] = append(s.kinds[r], verifChoice(verifName("class", 10*r+i), c17NumClasses))
 		}
 	}
